@@ -62,6 +62,8 @@ class Result:
     detail: str = ""  # human readable
     nontrivial: bool = False
     classes: tuple = ()
+    n_eval: int = 1  # number of executions this case stands for (fault enumerations run many per case)
+    digests: tuple | None = None  # distinct non-trivial items inside the case (default: the case itself)
 
     @staticmethod
     def ok(nontrivial=False, classes=()):
@@ -238,7 +240,14 @@ def _run_shard(modname, comp_idx, shard_idx, n, seed, deadline, outfile, target_
         digests = set()
         state = {"last_fail": None}
 
+        # Hypothesis always starts a run with the all-simplest example; with many small
+        # shards that would be most of what is generated.  Only shard 0 evaluates it.
+        skip_first = {"todo": shard_idx != 0}
+
         def body(case):
+            if skip_first["todo"]:
+                skip_first["todo"] = False
+                return
             if time.monotonic() > deadline:
                 summary["budget_exhausted"] = True
                 return
@@ -252,15 +261,16 @@ def _run_shard(modname, comp_idx, shard_idx, n, seed, deadline, outfile, target_
                 summary["discarded"] += 1
                 summary["classes"]["discard:" + res.sig] = summary["classes"].get("discard:" + res.sig, 0) + 1
                 return
-            summary["evaluations"] += 1
+            summary["evaluations"] += max(1, int(res.n_eval))
             for c in res.classes:
                 summary["classes"][c] = summary["classes"].get(c, 0) + 1
             if res.nontrivial:
                 d = case_digest(case)
-                if d not in digests:
-                    digests.add(d)
-                    if len(summary["samples"]) < 2:
-                        summary["samples"].append(abbreviate(case))
+                items = [d] if res.digests is None else [f"{d}:{x}" for x in res.digests]
+                fresh = [x for x in items if x not in digests]
+                digests.update(items)
+                if fresh and len(summary["samples"]) < 2:
+                    summary["samples"].append(abbreviate(case))
             for res in res_all:
                 if res.status != "fail":
                     continue
@@ -278,7 +288,7 @@ def _run_shard(modname, comp_idx, shard_idx, n, seed, deadline, outfile, target_
 
         test = given(comp.strategy)(body)
         test = hypothesis.seed(seed)(test)
-        test = _hyp_settings(n, shrink=target_sig is not None)(test)
+        test = _hyp_settings(n + (1 if shard_idx != 0 else 0), shrink=target_sig is not None)(test)
         try:
             test()
         except AssertionError:
@@ -300,29 +310,46 @@ def _spawn(target, args):
     return p
 
 
-def run_component(modname, comp_idx, comp: Component, tier, seed, deadline, workdir: Path, max_procs=16):
+def plan_component(comp_idx, comp: Component, tier, seed, workdir: Path, max_procs=16):
+    """list of shard jobs (comp_idx, shard, n, seed, outfile) of one component"""
     n_total = comp.quick if tier == "quick" else comp.thorough
     shards = comp.shards
     if tier == "quick" and comp.quick_shards:
         shards = comp.quick_shards
     shards = max(1, min(shards, n_total, max_procs))
     per = [n_total // shards + (1 if i < n_total % shards else 0) for i in range(shards)]
-    procs = []
-    for s in range(shards):
-        out = workdir / f"c{comp_idx}_s{s}.json"
-        sseed = seed * 100003 + 1009 * comp_idx + s
-        procs.append((s, sseed, out, _spawn(_run_shard, (modname, comp_idx, s, per[s], sseed, deadline, str(out), None))))
-    results = []
-    for s, sseed, out, p in procs:
-        p.join()
-    for s, sseed, out, p in procs:
+    return [(comp_idx, s, per[s], seed * 100003 + 1009 * comp_idx + s, workdir / f"c{comp_idx}_s{s}.json") for s in range(shards)]
+
+
+def run_jobs(modname, jobs, comps, deadline, max_procs=16):
+    """run shard jobs of all components with at most max_procs processes at a time;
+    returns {comp_idx: [shard summaries]}"""
+    pending = list(jobs)
+    running = []
+    while pending or running:
+        while pending and len(running) < max_procs:
+            job = pending.pop(0)
+            ci, s, n, sseed, out = job
+            running.append((job, _spawn(_run_shard, (modname, ci, s, n, sseed, deadline, str(out), None))))
+        still = []
+        for job, p in running:
+            if p.is_alive():
+                still.append((job, p))
+            else:
+                p.join()
+        if len(still) == len(running):
+            time.sleep(0.02)
+        running = still
+    results = {}
+    for ci, s, n, sseed, out in jobs:
+        name = comps[ci].name
         if not out.exists():
-            raise HarnessError(f"shard {comp.name}/{s} died without output (exit {p.exitcode})")
+            raise HarnessError(f"shard {name}/{s} died without output")
         r = json.loads(out.read_text())
         if r["error"]:
-            raise HarnessError(f"shard {comp.name}/{s} failed:\n{r['error']}")
-        r["shard"], r["seed"], r["n"] = s, sseed, per[s]
-        results.append(r)
+            raise HarnessError(f"shard {name}/{s} failed:\n{r['error']}")
+        r["shard"], r["seed"], r["n"] = s, sseed, n
+        results.setdefault(ci, []).append(r)
     return results
 
 
@@ -449,13 +476,19 @@ def main(argv=None):
                             violations.append((data["component"], res.sig, path, res.detail))
 
         # ---- generated search
+        jobs = []
         for ci, comp in enumerate(comps):
             if args.only and comp.name != args.only:
                 continue
             if args.scale != 1.0:
                 comp.quick = max(1, int(comp.quick * args.scale))
                 comp.thorough = max(1, int(comp.thorough * args.scale))
-            shards = run_component(modname, ci, comp, args.tier, seed, deadline, workdir)
+            jobs += plan_component(ci, comp, args.tier, seed, workdir)
+        all_results = run_jobs(modname, jobs, comps, deadline)
+        for ci, comp in enumerate(comps):
+            if ci not in all_results:
+                continue
+            shards = all_results[ci]
             ev = sum(s["evaluations"] for s in shards)
             total_eval += ev
             total_disc += sum(s["discarded"] for s in shards)
@@ -551,6 +584,8 @@ class Checker:
     def __init__(self, nontrivial=False, classes=()):
         self.nontrivial = bool(nontrivial)
         self.classes = list(classes)
+        self.n_eval = 1
+        self.digests = None
         self.fails: list[Result] = []
         self._seen = set()
 
@@ -586,10 +621,12 @@ class Checker:
         return False
 
     def results(self):
-        head = Result("ok", "", "", self.nontrivial, tuple(self.classes))
+        dg = None if self.digests is None else tuple(self.digests)
+        head = Result("ok", "", "", self.nontrivial, tuple(self.classes), self.n_eval, dg)
         if self.fails:
             first = self.fails[0]
             first.nontrivial = self.nontrivial
             first.classes = tuple(self.classes)
+            first.n_eval, first.digests = self.n_eval, dg
             return list(self.fails)
         return [head]
